@@ -14,6 +14,10 @@ package whoami
 //@ ghostvar nextW int
 //@ ghostvar nextR int
 //@ ghostvar nextCtx int
+//@ ghostvar nextQName str
+//@ ghostvar nextQType int
+//@ ghostvar nextQClass int
+//@ ghostvar nextId int
 //@ ufun qtypeof(int) int
 //@ ufun qclassof(int) int
 //@ ufun lowerstr(str) str
@@ -42,8 +46,9 @@ package whoami
 //@ pure
 //@ ensures result == uf.qclassof(r.Req)
 //@ extern github.com/coredns/coredns/plugin NextOrFailure
-//@ updates nextCalls, nextW, nextR, nextCtx
+//@ updates nextCalls, nextW, nextR, nextCtx, nextQName, nextQType, nextQClass, nextId
 //@ ensures nextCalls == old(nextCalls) + 1 && nextW == w && nextR == r && nextCtx == ctx
+//@ ensures len(r.Question) >= 1 ==> nextQName == r.Question[0].Name && nextQType == r.Question[0].Qtype && nextQClass == r.Question[0].Qclass && nextId == r.Id
 //@ extern strings ToLower
 //@ pure
 //@ ensures result == uf.lowerstr(s) && len(result) == len(s)
@@ -65,7 +70,8 @@ package whoami
 //@ func Handler.Name
 //@ pure
 //@ func Handler.ServeDNS
-//@ updates nextCalls, nextW, nextR, nextCtx, nwritten, lastWritten, writtenAt, mut
+//@ updates nextCalls, nextW, nextR, nextCtx, nextQName, nextQType, nextQClass, nextId, nwritten, lastWritten, writtenAt, mut
+//@ ensures[as-received] !(len(old(r.Question[0].Name)) == len(wh.whoamiDomain) && uf.lowerstr(old(r.Question[0].Name)) == wh.whoamiDomain) ==> nextQName == old(r.Question[0].Name) && nextQType == old(r.Question[0].Qtype) && nextQClass == old(r.Question[0].Qclass) && nextId == old(r.Id)
 //@ flag skip frame
 //@ ghostret mm int = m
 //@ requires wh != nil && r != nil && w != nil && len(r.Question) >= 1
